@@ -118,7 +118,7 @@ def gen_c10(rng, tier, n):
             # separately created stores, closed in creation order: A, B, close A, C – C starts empty and B keeps its events
             lines += ["use 4", "append %d" % (rec + 1), "use 5", "append %d" % (rec + 2), "drop 4", "use 6", "read - 0", "append %d" % (rec + 3),
                       "use 5", "read - 0", "use 6", "read - 0"]
-        if rng.random() < 0.15:
+        if rng.random() < 0.25:
             # concurrent appenders on a fresh instance (implementation-side judge: offsets strictly increasing in log order)
             lines.append("use 7")
             lines.append("raceappend %d %d" % (rng.randint(2, 6), rng.choice([20, 60, 150])))
